@@ -10,6 +10,7 @@ package mkvs
 //@   note an overlay is a new tree object layered over inner; nothing is written to inner until Commit
 
 //@ import "context"
+//@ import "github.com/oasisprotocol/oasis-core/go/storage/mkvs/syncer"
 
 //@ func NewWithRoot
 //@   trusted
@@ -62,13 +63,11 @@ package mkvs
 
 //@ func tree.Insert
 //@   props C13
-//@   requires t != nil && t.cache != nil
 //@   precall mkvs\.cache\)\.setPendingRoot$ :: t.withoutWriteLog || (t.pendingWriteLog[ufr[string]("toMapKey", key)] != nil && t.pendingWriteLog[ufr[string]("toMapKey", key)].insertedLeaf == result.insertedLeaf && bytesId(t.pendingWriteLog[ufr[string]("toMapKey", key)].value) == bytesId(value) && (defined(entry) && entry == nil ==> t.pendingWriteLog[ufr[string]("toMapKey", key)].existed == result.existed))
 //@   note the stored write log and its annotations are built from these entries at commit: a stale leaf (e.g. nil after remove + re-insert in one batch) would make the database serve a log that does not reproduce the new root
 
 //@ func tree.RemoveExisting
 //@   props C13
-//@   requires t != nil && t.cache != nil
 //@   precall mkvs\.cache\)\.setPendingRoot$ :: t.withoutWriteLog || (entry != nil && entry.value == nil && entry.insertedLeaf == nil) || (entry == nil && t.pendingWriteLog[ufr[string]("toMapKey", key)] != nil && t.pendingWriteLog[ufr[string]("toMapKey", key)].insertedLeaf == nil && t.pendingWriteLog[ufr[string]("toMapKey", key)].value == nil && t.pendingWriteLog[ufr[string]("toMapKey", key)].existed == changed)
 //@   note after a removal the entry recorded for the key has no value and no inserted leaf, and a NEW entry records "existed before" exactly as the tree reported it (doRemove's changed flag - also for a key stored with an empty value): the stored log will contain a deletion, or nothing only if the key did not exist before
 
@@ -201,3 +200,42 @@ package mkvs
 //@   precall ProofVerifier\)\.VerifyProof$ :: argIs(2, proof) && ((argAs[hash.Hash](1) == ptr.Hash && dstPtr == ptr) || (argAs[hash.Hash](1) == c.syncRoot.Hash && dstPtr == c.pendingRoot))
 //@   precall MergeVerifiedSubtree$ :: argIs(1, dstPtr) && argIs(2, subtree) && err == nil
 //@   note a fetched proof is verified against a hash this node already trusts - the hash of the pointer being dereferenced, or the hash of the sync root - and the verified subtree is merged at the corresponding pointer (the dereferenced pointer, or the pending root); nothing is merged before verification succeeded
+
+// ---- applying a received write log (C13): each entry is applied as what it says ----
+
+//@ func tree.ApplyWriteLog
+//@   props C13
+//@   precall mkvs\.tree\)\.Remove$ :: entry.Value == nil && argIs(1, entry.Key)
+//@   precall mkvs\.tree\)\.Insert$ :: entry.Value != nil && argIs(1, entry.Key) && argIs(2, entry.Value)
+//@   note an entry with a nil value is applied as a removal of exactly its key, any other entry as an insertion of exactly its key and value; nothing else is written by the loop
+
+//@ ghost func ItErrNil(it Iterator) bool { return ufr[error]("iterErr", it, GIterPos[it]) == nil }
+
+//@ func Iterator.Err
+//@   iface (self Iterator) (result error)
+//@   modifies nothing
+//@   ensures (result == nil) == ItErrNil(self)
+
+//@ func Iterator.GetProof
+//@   iface (self Iterator) (result *syncer.Proof, err error)
+//@   modifies nothing
+
+//@ func Iterator.GetProofBuilder
+//@   iface (self Iterator) (result *syncer.ProofBuilder)
+//@   modifies nothing
+
+//@ func Iterator.Close
+//@   iface (self Iterator)
+//@   modifies nothing
+
+// ---- overlay commit (C03): every entry of the overlay is written to the inner tree ----
+
+//@ ghost var GOvYield int
+//@ ghost var GInnerIns int
+
+//@ func treeOverlay.Commit
+//@   props C03
+//@   loop 1 invariant GOvYield - old(GOvYield) == GInnerIns - old(GInnerIns) + ite(ok, 1, 0)
+//@   loop 2 invariant GOvYield - old(GOvYield) == GInnerIns - old(GInnerIns)
+//@   ensures err == nil ==> GOvYield - old(GOvYield) == GInnerIns - old(GInnerIns)
+//@   note counted: every time the overlay's iterator yields an entry (First/Next returned true), exactly one Insert into the inner tree follows before the next step - no entry of the overlay is skipped at commit, whatever its value and whatever the inner tree already holds
